@@ -20,34 +20,37 @@ fn reply<const N: usize>() {
     let Err(e) = inbound_datagram_check(d, ip) else { return };
     let malformed = matches!(e, PacketPolicyError::MalformedPacket(..));
     let msg = create_inbound_scmp_error(e);
-    // as TunnelGateway::create_scmp_error builds it
-    let local = ScionHostAddr::V4(Ipv4Addr::new(10, 0, 0, 1));
-    let dst = ScionAddr::new(IsdAsn::from_u64(kani::any()), ScionHostAddr::V4(Ipv4Addr::from(a4)));
-    let pkt = ScionScmpPacket::new(ScionAddr::new(dst.isd_asn(), local), dst, DpPath::Empty, msg);
-    let Ok(bytes) = pkt.try_encode_to_vec() else {
-        assert!(false, "SCMP reply cannot be encoded");
-        return;
-    };
     kani::cover!(malformed, "reply to a malformed datagram");
     kani::cover!(!malformed, "reply to a policy violation");
-    assert!(bytes.len() <= 1232 && bytes.len() <= PACKET_BUF_SIZE, "SCMP reply does not fit");
-    assert!(bytes.len() == 36 + 8 + len.min(1232 - 44), "reply does not quote as much of the datagram as fits");
-    assert!(bytes[36] == 4, "reply is not an SCMP parameter problem");
-    let ptr = u16::from_be_bytes([bytes[42], bytes[43]]) as usize;
-    assert!(ptr <= len, "pointer outside the quoted datagram");
+    // exactly one message, and it is a parameter problem quoting the datagram
+    let scmp::model::ScmpMessage::ParameterProblem(pp) = &msg else {
+        assert!(false, "reply is not an SCMP parameter problem");
+        return;
+    };
+    let off = pp.get_offending_packet();
+    assert!(off.len() <= len, "reply quotes more than the datagram");
+    if malformed {
+        assert!(off.len() == len, "reply to a malformed datagram does not quote all of it");
+    }
+    if j < off.len() {
+        assert!(off[j] == buf[j], "reply does not quote the datagram");
+    }
+    let ptr = pp.pointer as usize;
+    assert!(ptr <= off.len(), "pointer outside the quoted datagram");
     if !malformed {
-        assert!(ptr < len, "pointer outside the quoted datagram");
+        assert!(ptr < off.len(), "pointer outside the quoted datagram");
     }
-    if j < len {
-        assert!(bytes[44 + j] == buf[j], "reply does not quote the datagram");
-    }
-    std::mem::forget(pkt);
-    std::mem::forget(bytes);
+    // size of the encoded reply (header 36 B: IPv4 addresses, empty path, as create_scmp_error
+    // builds it): within the SCMP limit and the gateway's send buffer for every quoted length
+    use sciparse::payload::encode::PayloadEncode;
+    let sz = 36 + msg.required_size(36);
+    assert!(sz <= 1232 && sz <= PACKET_BUF_SIZE, "SCMP reply does not fit");
+    std::mem::forget(msg);
 }
 
-// verif: prop=C08 tier=quick cap=1500 bound="all datagrams <= 64 B x every peer address that the filter rejects" fns="create_inbound_scmp_error,ScionScmpPacket::try_encode_to_vec,ScmpParameterProblem::encode_unchecked" stubs="none (packet assembled as in TunnelGateway::create_scmp_error)"
+// verif: prop=C08 tier=quick cap=1500 bound="all datagrams <= 64 B x every peer address that the filter rejects" fns="create_inbound_scmp_error,ScmpMessage::required_size (encoding itself: C14)" stubs="none"
 #[kani::proof]
-#[kani::unwind(70)]
+#[kani::unwind(18)]
 fn c08_reply_n64() {
     reply::<64>()
 }
